@@ -963,7 +963,9 @@ impl Compactor {
 
     /// Enforce data retention policy
     async fn enforce_retention(&self) -> Result<()> {
-        let retention_nanos = self.config.retention_days as i64 * 24 * 3600 * 1_000_000_000;
+        // Saturating: a retention longer than the representable time span keeps everything.
+        let retention_nanos =
+            (self.config.retention_days as i64).saturating_mul(24 * 3600 * 1_000_000_000);
         let cutoff = self.clock.retention_cutoff_nanos(retention_nanos);
 
         // Find chunks older than retention period.
